@@ -132,7 +132,7 @@ func (r *runner) do(o *gop, sample bool) {
 	}
 	// generator knowledge
 	switch o.k {
-	case kLen, kBytes, kString, kCap, kReWrite:
+	case kLen, kBytes, kString, kCap, kReWrite, kNil:
 	case kGrow:
 		if o.n >= 0 {
 			r.g = true
@@ -140,7 +140,14 @@ func (r *runner) do(o *gop, sample bool) {
 	default:
 		r.g = false
 	}
+	wasRead := r.lastRead
 	r.lastRead = false
+	if st >= 900 && st < 1000 && wasRead { // a recovered panic right after a read: the Unread* that follows is the interesting one
+		r.lastRead = true
+	}
+	if o.k == kNil && wasRead {
+		r.lastRead = true
+	}
 	switch o.k {
 	case kRead, kNext, kReadByte, kReadRune:
 		if st == 0 && ((o.k == kRead && data[0] > 0) || (o.k == kNext && len(data) > 0) || o.k == kReadByte || o.k == kReadRune) {
@@ -406,6 +413,26 @@ func (r *runner) next(w *weights) *gop {
 			ws[i] = (ws[i] + 2) / 3
 		}
 	}
+	if r.rnd.Intn(60) == 0 { // a method on a nil receiver
+		return &gop{k: kNil, n: r.rnd.Intn(3) / 2}
+	}
+	if r.lastRead && r.rnd.Intn(7) == 0 { // an operation that panics on its argument, right after a successful read
+		switch r.rnd.Intn(5) {
+		case 0:
+			return &gop{k: kTruncate, n: ln + 1 + r.rnd.Intn(3)}
+		case 1:
+			return &gop{k: kTruncate, n: -1 - r.rnd.Intn(3)}
+		case 2:
+			return &gop{k: kNext, n: -1 - r.rnd.Intn(3)}
+		case 3:
+			return &gop{k: kGrow, n: -1 - r.rnd.Intn(3)}
+		default:
+			if ln > 0 {
+				return &gop{k: kWriteTo, m: ln + 1 + r.rnd.Intn(3), e: 0}
+			}
+			return &gop{k: kTruncate, n: ln + 1}
+		}
+	}
 	switch pick(r.rnd, ws) {
 	case 0:
 		return &gop{k: kWrite, p: r.payload(r.size(w.maxPayload))}
@@ -648,6 +675,10 @@ func main() {
 				corpus()[idx].emit(e, e.Replay)
 				return
 			}
+			if f[1] == "alias" {
+				aliasHistories(e)[idx].emit(e, e.Replay)
+				return
+			}
 			if f[1] == "par" { // a parallel run cannot be repeated step for step: run the class again and show its rounds
 				e.Seed = seed
 				ph, _, _ := runParallel(e, parRounds(f[3] == "1"))
@@ -685,6 +716,10 @@ func main() {
 				t = "1"
 			}
 			h.emit(e, fmt.Sprintf("%d/par/0/%s", e.Seed, t))
+			count(h)
+		}
+		for i, h := range aliasHistories(e) {
+			h.emit(e, fmt.Sprintf("%d/alias/%d/0", e.Seed, i))
 			count(h)
 		}
 		stats["parallel_rounds_run"] = tot
